@@ -159,6 +159,9 @@ func check(s Spec) h.Result {
 		if ex.chg {
 			cl = append(cl, "edits:length-changing")
 		}
+		if ex.intro > 4<<20 {
+			cl = append(cl, "edits:fresh-run>4MiB")
+		}
 		if ex.k >= 1 && ex.chg && ex.size >= 8*h.BS {
 			nt = true
 		}
@@ -218,6 +221,10 @@ func genEdits(t *rapid.T, size int) []Edit {
 			off = size
 		}
 		n := rapid.OneOf(rapid.IntRange(1, 300), rapid.SampledFrom([]int{h.BS - 1, h.BS, h.BS + 1, 3 * h.BS}), rapid.IntRange(1, 70000)).Draw(t, "n")
+		if rapid.IntRange(0, 11).Draw(t, "huge") == 0 {
+			// a fresh run of more than 4MiB (the data-op limit / internal window) followed by old data
+			n = rapid.SampledFrom([]int{4<<20 + 1, 4<<20 + h.BS + 3, 5 << 20, 9 << 20}).Draw(t, "n-huge")
+		}
 		e := Edit{Off: off}
 		switch rapid.IntRange(0, 2).Draw(t, "edit-kind") {
 		case 0:
